@@ -1,11 +1,11 @@
 # C12 — instruction read/write information (database-agreement part)
 import json, os
-UNITS = [Unit('rw', harness=['h_rw.cpp'], repo_units=['asmjit/x86/x86assembler.cpp', 'asmjit/x86/x86instdb.cpp', 'asmjit/x86/x86instapi.cpp'])]
+UNITS = [Unit('rw', prescreen=True, harness=['h_rw.cpp'], repo_units=['asmjit/x86/x86assembler.cpp', 'asmjit/x86/x86instdb.cpp', 'asmjit/x86/x86instapi.cpp'])]
 _c01 = os.path.join(os.path.dirname(os.path.abspath(__file__)), '..', 'C01')
 _fg = json.load(open(os.path.join(_c01, 'forms_gen.json')))
 _st = json.load(open(os.path.join(_c01, 'forms_status.json')))
 _sel = [h for h in _fg['harnesses'] if not h.get('known') and _st.get(h['fn'], {}).get('accepted_runs', 0) > 0]
-_NQ = max(1, len(_sel) // 24); _NT = max(1, len(_sel) // 400)
+_NQ = max(1, len(_sel) // 300); _NT = 1
 HARNESSES = []
 for _i, _h in enumerate(_sel):
     HARNESSES.append(Harness('rw', _h['fn'], unwind=17, tiers=('quick', 'thorough'), mem_gb=4, timeout=600, validate_runs=200,
